@@ -204,6 +204,35 @@ def corruptions(ev):
         if obs.get("declared", {}).get("mat") and obs["declared"]["mat"][0]:
             e = clone(); e["obs"]["declared"]["mat"][0][0] = bump(e["obs"]["declared"]["mat"][0][0]); yield "declared_value", e
             e = clone(); e["obs"]["loaded"] = "ValueError: corrupt"; yield "loaded", e
+    if ev["call"] == "eqx" and isinstance(obs.get("exp_a"), dict) and obs["exp_a"].get("tsv"):
+        xa = obs["exp_a"]
+        if xa["tsv"]["mat"] and xa["tsv"]["mat"][0]:
+            e = clone(); m_ = e["obs"]["exp_a"]["tsv"]["mat"]; m_[0][0] = bump(m_[0][0]); yield "exp_tsv_value", e
+        if xa["tsv"]["samp"]:
+            e = clone(); e["obs"]["exp_b"]["tsv"]["samp"][0] = "zz4"; yield "exp_tsv_id", e
+        if xa["json"]["mat"] and xa["json"]["mat"][0]:
+            e = clone(); m_ = e["obs"]["exp_b"]["json"]["mat"]; m_[-1][-1] = bump(m_[-1][-1]); yield "exp_json_value", e
+            e = clone(); e["obs"]["exp_a"]["json"]["type"] = "Corrupt"; yield "exp_json_type", e
+            e = clone(); e["obs"]["exp_a"]["json"]["obs"] = e["obs"]["exp_a"]["json"]["obs"][::-1] if len(xa["json"]["obs"]) > 1 else ["zz"]; yield "exp_json_ids", e
+        for ax in ("omd", "smd"):
+            if xa["json"][ax]["has"] and xa["json"][ax]["rows"] and xa["json"][ax]["rows"][0]:
+                e = clone(); e["obs"]["exp_a"]["json"][ax]["rows"][0][0][2] = ["CORRUPT"]; yield "exp_json_md", e
+        if xa["hdf5"]["ok"]:
+            e = clone(); e["obs"]["exp_a"]["hdf5"]["ok"] = False; yield "exp_h5_failed", e
+            if xa["hdf5"]["raw"]["obs"]["data"]:
+                e = clone(); d_ = e["obs"]["exp_a"]["hdf5"]["raw"]["obs"]["data"]; d_[0] = bump(d_[0]); yield "exp_h5_raw_data", e
+                e = clone(); d_ = e["obs"]["exp_b"]["hdf5"]["raw"]["samp"]["data"]; d_[-1] = bump(d_[-1]); yield "exp_h5_raw_data_samp", e
+            e = clone(); e["obs"]["exp_b"]["hdf5"]["raw"]["attrs"]["nnz"] += 1; yield "exp_h5_nnz", e
+            e = clone(); m_ = e["obs"]["exp_b"]["hdf5"]["loaded"]["mat"]; m_[0][0] = bump(m_[0][0]); yield "exp_h5_loaded", e
+        if obs.get("q_a"):
+            e = clone(); e["obs"]["q_a"][len(obs["q_a"]) // 2] = "corrupt answer"; yield "query_answer", e
+    if ev["call"] == "draws":
+        h = obs["hist"]
+        if len(h) >= 2:
+            e = clone(); hh = e["obs"]["hist"]; mv = hh[0][1] // 3; hh[0][1] -= mv; hh[1][1] += mv; yield "draws_skewed", e
+            e = clone(); hh = e["obs"]["hist"]; hh[-2][1] += hh[-1][1]; del hh[-1]; yield "draws_outcome_never_drawn", e
+        e = clone(); hh = e["obs"]["hist"]; hh[0][0] = [[9 for _ in v] for v in hh[0][0]]; yield "draws_impossible_outcome", e
+        e = clone(); e["obs"]["errors"] = 3; yield "draws_errors", e
     if isinstance(obs.get("parsed"), list) and obs["parsed"]:
         e = clone(); e["obs"]["parsed"][0][0] = "zz5"; yield "parsed_id", e
         e = clone(); e["obs"]["parsed"] = e["obs"]["parsed"][1:]; yield "parsed_dropped", e
@@ -238,7 +267,7 @@ def main():
         for name, camp in F.CAMPAIGNS.items():
             if camp.get("kind") == "recorded":
                 continue
-            c = F.run_campaign(camp, "quick", 0, wd)
+            c = F.run_campaign(dict(camp, keep_traces=True), "quick", 0, wd)
             traces = c["traces"]
             for f in c["judge"]["fails"]:
                 base_fail[f["clause"]] += 1
